@@ -31,9 +31,11 @@ LEVEL_TEXT = (
     "on the live memory of real optimisation runs (line-search resets, rejected updates, evictions, restarts)."
 )
 LEVEL_NOTE = (
-    "Matrix comparisons use a relative tolerance of 1e-6 on the max-norm and are skipped (structure still checked) "
-    "when the reference matrix has condition number above 1e8; exact comparisons for stored points, counts, order, "
-    "eviction and the no-op on reject."
+    "Matrix comparisons use a tolerance of 1e-6 relative to the largest magnitude met in the dense recursion and are "
+    "skipped (structure still checked) when the reference matrix has condition number above 1e6 or a pair is almost "
+    "orthogonal (|s||y| > 1e4 s.y); positive definiteness: smallest eigenvalue of the symmetrised compact-form matrix, "
+    "strictly positive for condition numbers up to 1e4; exact comparisons for stored points, counts, order, eviction "
+    "and the no-op on reject."
 )
 TECHNIQUE = "deterministic simulation: stateful operation histories (incl. failed operations and restore) against an executable reference model; in-run interception"
 DESIGN_REF = "DESIGN.md 4.6, 7.3"
@@ -52,7 +54,7 @@ COMPONENTS = {
     "real": ["lbfgsb.bfgsmats (LBFGSB_MATRICES, update_lbfgs_matrices, update_X_and_G, form_invMfactors)", "lbfgsb.main.initialize_X_and_G (restore path)", "whole solver for the live plans"],
     "stub": ["caller of the memory API (operation generator)", "reference model: list of pairs + dense BFGS recursion in long double"],
 }
-ASSUMPTIONS = ["positive definiteness is judged by a Cholesky factorisation of the symmetrised dense matrix"]
+ASSUMPTIONS = ["positive definiteness is judged by the smallest eigenvalue of the symmetrised dense matrix rebuilt through the solver's own triangular solves"]
 EPSS = (2.2e-16, 1e-8, 1e-2)
 
 
@@ -141,7 +143,9 @@ def check_memory(X, G, mats, maxcor, eps, stats, check_matrix=True):
     if float(np.max(np.abs(b - b.T))) > tol:
         out.append(("matrix_not_symmetric", {"asym": float(np.max(np.abs(b - b.T)))}))
     lam_min = float(np.min(np.linalg.eigvalsh(0.5 * (b + b.T))))
-    if not lam_min > -tol:
+    # strictly positive where the reference matrix is comfortably conditioned, otherwise up to the
+    # accuracy of the comparison itself
+    if not (lam_min > 0.0 if cond <= 1e4 else lam_min > -tol):
         out.append(("matrix_not_positive_definite", {"cond": float(cond), "lambda_min": lam_min}))
     s, y = pairs[-1]
     sec = float(np.max(np.abs(b @ s - y)))
@@ -315,7 +319,7 @@ def execute_model(plan, stats, keys, viol):
                     if len(X) != len(mX) or any(a.tobytes() != b.tobytes() for a, b in zip(X, mX)):
                         add("rejected_update_touched_memory", {"forced": True}, i)
                         return
-                elif mats2 is not mats or mats_fingerprint(X, G, mats2) != pre:
+                elif mats_fingerprint(X, G, mats2) != pre:
                     add("rejected_update_touched_memory", {}, i)
                     return
             mats = mats2
